@@ -62,7 +62,7 @@ func bigOf(id [20]byte) *big.Int { return new(big.Int).SetBytes(id[:]) }
 
 func c18metric(c *evid.Ctx) {
 	r := c.R.Fork("metric")
-	n := c.Scale(400000, 20000000)
+	n := c.Scale(400000, 60000000)
 	for i := 0; i < n; i++ {
 		a := c18id(r, r.ID())
 		b := c18id(r, a)
@@ -234,7 +234,7 @@ func amiSame(a, b types.AddrMaybeId) bool {
 
 func c18closer(c *evid.Ctx) {
 	r := c.R.Fork("closer")
-	n := c.Scale(300000, 10000000)
+	n := c.Scale(300000, 40000000)
 	var g *amiGen
 	for i := 0; i < n; i++ {
 		if i%64 == 0 {
@@ -285,7 +285,7 @@ func c18closer(c *evid.Ctx) {
 
 func c18sortedSet(c *evid.Ctx) {
 	r := c.R.Fork("sortedset")
-	n := c.Scale(4000, 150000)
+	n := c.Scale(4000, 500000)
 	for i := 0; i < n; i++ {
 		g := newAmiGen(r)
 		set := containers.NewImmutableAddrMaybeIdsByDistance(int160.FromByteArray(g.t))
@@ -348,7 +348,7 @@ func c18sortedSet(c *evid.Ctx) {
 
 func c18knearest(c *evid.Ctx) {
 	r := c.R.Fork("knearest")
-	n := c.Scale(4000, 150000)
+	n := c.Scale(4000, 500000)
 	for i := 0; i < n; i++ {
 		g := newAmiGen(r)
 		// A larger ID pool here: the container is about trimming.
